@@ -1213,6 +1213,10 @@ def rule_r12(rep, program: Program, prop=PROP, rule="R12"):
             if isinstance(v, ast.Constant) and v.value is None:
                 continue
             guarded = any(isinstance(c, ast.Call) and call_name(c).split(".")[-1] in guards for c in ast.walk(v))
+            if not guarded and isinstance(v, ast.Name):
+                # the stored local was bound to a guarded value (`value = guard(state, method(...))`) and not re-bound
+                defs = [a for a in ast.walk(dn) if isinstance(a, ast.Assign) and len(a.targets) == 1 and isinstance(a.targets[0], ast.Name) and a.targets[0].id == v.id]
+                guarded = len(defs) == 1 and any(isinstance(c, ast.Call) and call_name(c).split(".")[-1] in guards for c in ast.walk(defs[0].value))
             # inline guard: the store itself is conditional on a may_share_memory test handled in place
             inline = any(isinstance(c, ast.Call) and call_name(c) in ("np.may_share_memory", "np.shares_memory") for c in ast.walk(dn)) and not guards
             r.inst({"decorator": dname, "store": norm(st)[:70], "guarded": guarded or inline})
